@@ -12,8 +12,13 @@ import (
 	"crypto/elliptic"
 	_ "crypto/sha256"
 	_ "crypto/sha512"
+	"go/scanner"
+	"go/token"
 	"math/big"
 	"os"
+	"path/filepath"
+	"sort"
+	"strconv"
 	"strings"
 	"testing"
 
@@ -258,4 +263,56 @@ func edgeBytes(r *lib.Rng, n int) []byte {
 	default:
 		return r.Bytes(n)
 	}
+}
+
+// libraryLiterals: the string literals of the non-test source files of the
+// given packages of the tree under test (VERIF_REPO), plus the packages' own
+// names and paths: candidate context strings a library could treat as "the
+// same as" another one (a default label, a reserved tag).  A fuzzing
+// dictionary taken from the code that is being run.
+func libraryLiterals(rels ...string) [][]byte {
+	seen := map[string]bool{}
+	var out [][]byte
+	add := func(s string) {
+		if len(s) > 0 && len(s) <= 64 && !seen[s] {
+			seen[s] = true
+			out = append(out, []byte(s))
+		}
+	}
+	root := repoRoot()
+	for _, rel := range rels {
+		add(rel)
+		add(filepath.Base(rel))
+		add("circl/" + rel)
+		add("github.com/cloudflare/circl/" + rel)
+		if root == "" {
+			continue
+		}
+		files, _ := filepath.Glob(filepath.Join(root, rel, "*.go"))
+		for _, f := range files {
+			if strings.HasSuffix(f, "_test.go") {
+				continue
+			}
+			src, err := os.ReadFile(f)
+			if err != nil {
+				continue
+			}
+			var sc scanner.Scanner
+			fs := token.NewFileSet()
+			sc.Init(fs.AddFile(f, fs.Base(), len(src)), src, nil, 0)
+			for {
+				_, tok, lit := sc.Scan()
+				if tok == token.EOF {
+					break
+				}
+				if tok == token.STRING {
+					if v, err := strconv.Unquote(lit); err == nil {
+						add(v)
+					}
+				}
+			}
+		}
+	}
+	sort.Slice(out, func(i, j int) bool { return string(out[i]) < string(out[j]) })
+	return out
 }
